@@ -1640,6 +1640,22 @@ func tokenTypeOf(w *World, v *T) (uint64, bool) {
 			if n == "typ" && v.A[i].IsConst() {
 				return 1 << uint(v.A[i].C), true
 			}
+			// the type looked up in a table the package initialiser fills: any of its entries
+			if n == "typ" {
+				if lk := mapLookupOf(v.A[i]); lk != nil {
+					if ents, ok := w.roInitMap(lk.A[0]); ok && len(ents) > 0 {
+						var set uint64
+						for _, en := range ents {
+							c := stripConv(en.val)
+							if !c.IsConst() || c.C < 0 || c.C >= 64 {
+								return 0, false
+							}
+							set |= 1 << uint(c.C)
+						}
+						return set, true
+					}
+				}
+			}
 		}
 	}
 	return 0, false
